@@ -42,7 +42,7 @@ def gen(rng, tier, idx):
     return dict(P=max(g[0] * g[1] for g in grids), ckw=ckw, grids=grids,
                 storage=rng.choice(['complex128', 'float64']), fn=rng.choice(['pert', 'pert', 'rho']),
                 data=rng.choice(['random', 'random', 'equilibrium', 'combo', 'scaled']),
-                dseed=rng.randrange(1 << 30), second_finder=rng.random() < 0.4, sched=sched)
+                dseed=rng.randrange(1 << 30), second_finder=rng.random() < 0.4, again=rng.random() < 0.4, sched=sched)
 
 
 def make_field(case, eta, cdict):
@@ -99,7 +99,18 @@ def run(case, tape=None):
                 df.getPerturbedRho(f, rho)
             else:
                 df.getRho(f, rho)
-            return dict(rho=phys.block(rho), eta=eta if rank == 0 else None,
+            out = phys.block(rho)
+            again = None
+            if case.get('again'):
+                # the same finder and density grid used for the next time step (other data, the other function)
+                F2 = make_field(dict(case, dseed=case['dseed'] + 313, data='combo'), eta, cdict)
+                f.getAllData()[:] = cm.local(F2, f.getLayout('v_parallel'))
+                if case['fn'] == 'pert':
+                    df.getRho(f, rho)
+                else:
+                    df.getPerturbedRho(f, rho)
+                again = phys.block(rho)
+            return dict(rho=out, again=again, eta=eta if rank == 0 else None,
                         cdict=cdict if rank == 0 else None)
 
         def post(w, results):
@@ -119,6 +130,14 @@ def run(case, tape=None):
             if case['data'] == 'equilibrium' and case['fn'] == 'pert':
                 if float(np.max(np.abs(got))) > 1e-12 * scale:
                     raise OracleFail('equilibrium-density-nonzero', dict(grid=g, max=float(np.max(np.abs(got)))))
+            if case.get('again'):
+                F2 = make_field(dict(case, dseed=case['dseed'] + 313, data='combo'), eta, cdict)
+                got2 = phys.assemble([r['again'] for r in results], npts[:3], 'rho (second call)')
+                want2 = ref.density_ref(F2, eta, cdict, case['fn'] != 'pert')
+                scale2 = max(float(np.max(np.abs(F2))), float(np.max(np.abs(F)))) * float(eta[3][-1] - eta[3][0])
+                err2 = float(np.max(np.abs(got2 - want2))) / scale2
+                if not (err2 <= TOL):
+                    raise OracleFail('density-differs', dict(grid=g, relerr=err2, why='second call on the same finder and grid'))
             return dict(probes={'grid_%dx%d' % (g[0], g[1]): 1})
         with phys.force_procs({P: g}):
             res = M.run(P, case['sched'], rank_fn, post)
@@ -127,6 +146,8 @@ def run(case, tape=None):
     probes = {'fn_' + case['fn']: 1, 'data_' + case['data']: 1, 'storage_' + case['storage']: 1}
     if case.get('second_finder'):
         probes['two_finders_on_one_spline'] = 1
+    if case.get('again'):
+        probes['finder_reused'] = 1
     return M.finish(extra=dict(nontrivial=case['P'] > 1, probes=probes))
 
 
